@@ -47,8 +47,8 @@ RULE = {
 }
 FAULT_KINDS = {
     "C04": ["rng_min", "rng_max", "cost_beyond_hard_limit", "legacy_below_min", "legacy_above_max", "policy_update"],
-    "C08": ["subst", "delete", "dup", "insert", "truncate", "empty", "other_record", "other_scheme", "swap_fields", "nul", "nonascii",
-            "garbage", "numeric_alias", "as_bytes"],
+    "C08": ["cold_start", "subst", "delete", "dup", "insert", "truncate", "empty", "other_record", "other_scheme", "swap_fields", "nul", "nonascii",
+            "garbage", "numeric_alias", "respell", "as_bytes"],
     "C10": ["restart_via_object", "using_raises", "invalid_item", "policy_file_missing", "policy_file_unreadable", "policy_file_read_error",
             "policy_file_truncated", "policy_file_wrong_section", "policy_file_not_utf8", "restart_via_dict", "restart_via_ini",
             "restart_via_file"],
@@ -97,7 +97,7 @@ C08_PALETTE = ["des_crypt", "bsdi_crypt", "md5_crypt", "apr_md5_crypt", "sha1_cr
                "sun_md5_crypt", "fshp", "ldap_salted_md5", "ldap_salted_sha256", "ldap_salted_sha512", "ldap_md5", "django_salted_md5",
                "django_pbkdf2_sha1", "atlassian_pbkdf2_sha1", "grub_pbkdf2_sha512", "mssql2000", "mssql2005", "oracle11", "ldap_md5_crypt",
                "ldap_sha256_crypt", "ldap_sha512_crypt", "ldap_sha1_crypt", "ldap_des_crypt", "ldap_bsdi_crypt", "ldap_bcrypt", "django_bcrypt",
-               "hex_sha1", "hex_sha256", "hex_sha512", "cisco_type7", "scram"]
+               "hex_sha1", "hex_sha256", "hex_sha512", "cisco_type7", "scram", "django_des_crypt", "bigcrypt"]
 HEXLEN = {"hex_md5": 32, "nthash": 32, "hex_sha1": 40, "hex_sha256": 64, "hex_sha512": 128}
 PWS = ["pw", "secret", "Pw", "pässword", "p w", "x", "correct horse"]
 CATS = ["admin", "staff"]
@@ -391,6 +391,8 @@ def _gen_storage_program(rng, tier):
             schemes.append(s_)
     if "hex_md5" in schemes and "nthash" in schemes:
         schemes.remove("nthash")
+    if "bigcrypt" in schemes:
+        schemes = ["bigcrypt"]  # (a 13-character bigcrypt string IS a des_crypt string, and its salt+first segment is one too)
     if "cisco_type7" in schemes:
         schemes = ["cisco_type7"]  # (two digits + hex pairs: it would claim many other formats' strings; judged on its own)
     tail = []
@@ -400,7 +402,7 @@ def _gen_storage_program(rng, tier):
         tail.append("plaintext")
     users = [{"scheme": rng.choice(schemes), "pw": rng.choice(PWS)} for _ in range(rng.randint(1, 4))]
     ops = []
-    kinds = FAULT_KINDS["C08"][:-1] + ["intact"]  # ("intact": the record exactly as stored, possibly handed over as bytes)
+    kinds = [k_ for k_ in FAULT_KINDS["C08"][:-1] if k_ != "cold_start"] + ["intact"]  # ("intact": the record exactly as stored, possibly handed over as bytes)
     if tier == "thorough" and rng.random() < 0.5:
         for i in range(len(users)):
             ops.append({"op": "sweep", "user": i, "what": rng.choice(["subst", "delete", "truncate", "dup", "insert"]), "as_bytes": rng.random() < 0.2})
@@ -408,7 +410,8 @@ def _gen_storage_program(rng, tier):
         ops.append({"op": "corrupt", "user": rng.randrange(len(users)), "kind": rng.choice(kinds), "pos": rng.randint(0, 130),
                     "byte": rng.choice(SUBST), "as_bytes": rng.random() < 0.2, "other": rng.randrange(len(users)),
                     "cumulative": rng.random() < 0.15})
-    return {"cfg": {"mode": "storage", "schemes": schemes, "tail": tail, "users": users, "seed": rng.getrandbits(32)}, "ops": ops}
+    cold = rng.random() < 0.3
+    return {"cfg": {"mode": "storage", "schemes": schemes, "tail": tail, "users": users, "seed": rng.getrandbits(32), "cold": cold}, "ops": ops}
 
 
 INVALID_KINDS = ["unknown_scheme", "unknown_option", "forbidden_salt", "default_not_in_schemes", "deprecated_not_in_schemes",
@@ -888,6 +891,17 @@ def damage(h, kind, pos, byte, other):
         return h[:i] + "é" + h[i + 1:]
     if kind == "garbage":
         return (byte * 7 + "$x$" + h[::-1])[: max(3, pos % 90)]
+    if kind == "respell":
+        # a DOCUMENTED second spelling of the same record: still the same hash, must keep answering like it
+        if h.startswith("crypt$") and h.count("$") == 2:
+            a, b, c_ = h.split("$")
+            return f"crypt$${c_}" if b else f"crypt${c_[:2]}${c_}"
+        if h.startswith("{") and "}" in h:
+            i_ = h.index("}")
+            return h[: i_ + 1].swapcase() + h[i_ + 1:]
+        if h and all(ch in "0123456789abcdefABCDEF" for ch in h):
+            return h.swapcase()
+        return h
     if kind == "numeric_alias":
         # a decimal field is rewritten to a value that a sloppy reader may fold back onto the original: +1, or the original plus a
         # table / word size (53, 64, 256, 2^16, 2^32) -- modular indexing and integer wrap-around are the classic aliasing mistakes
@@ -920,9 +934,21 @@ class _StorageRun:
         self.cc = build_context(kw)
         self.handlers = {s: getattr(passlib.hash, s) for s in schemes}
         self.records = []
+        from simkit.refmodels.known_hashes import KNOWN, PW
+
         for u in cfg["users"]:
             H = self.handlers[u["scheme"]]
             c = MIN_COST.get(u["scheme"])
+            if cfg.get("cold") and u["scheme"] in KNOWN:
+                # cold start (a restarted worker): the record was written by an earlier process; the first thing THIS process does with
+                # the scheme is to check a stored hash -- nothing has been hashed, no backend chosen, no lazy import resolved yet
+                u = dict(u, pw=PW)
+                h = KNOWN[u["scheme"]]
+                ctx.fault("cold_start")
+                self.records.append({"scheme": u["scheme"], "pw": u["pw"], "hash": h, "cur": h, "ex": self.extract(u["scheme"], h)})
+                if self.records[-1]["ex"] is None:
+                    raise RuntimeError(f"extractor cannot read the constant {u['scheme']} hash {h!r}")
+                continue
             with warnings.catch_warnings():
                 warnings.simplefilter("ignore")
                 h = H.using(**({"rounds": c} if c is not None else {})).hash(u["pw"])
